@@ -16,6 +16,7 @@ import (
 	"fmt"
 	"math/big"
 	"os"
+	"path/filepath"
 	"sort"
 	"strings"
 
@@ -197,12 +198,38 @@ func derived(src, sender int) common.Address {
 // ---------------------------------------------------------------------------------------------
 // generator
 
+// corpus/C19/*.json: recorded failing histories of past findings, run first on every check
+func (e *env) corpusFiles() [][]opT {
+	dir := os.Getenv("VERIF_CORPUS")
+	if dir == "" {
+		dir = "/verif/corpus"
+		for _, d := range []string{"../corpus", "corpus"} {
+			if st, err := os.Stat(d); err == nil && st.IsDir() {
+				dir = d
+				break
+			}
+		}
+	}
+	files, _ := filepath.Glob(filepath.Join(dir, "C19", "*.json"))
+	sort.Strings(files)
+	var out [][]opT
+	for _, f := range files {
+		var r struct {
+			Ops []opT `json:"ops"`
+		}
+		bz, err := os.ReadFile(f)
+		lib.Must(err)
+		lib.Must(json.Unmarshal(bz, &r))
+		out = append(out, r.Ops)
+	}
+	return out
+}
+
 func (e *env) corpus() [][]opT {
-	return [][]opT{
-		// EVM send, success ack (the relation record should go), then timeout of a second one, replayed
-		{{Kind: "sendevm", Chan: 0, User: 0, Denom: "alias0", Amt: 300}, {Kind: "ack", Chan: 0, Seq: 1, OK: true},
-			{Kind: "sendevm", Chan: 0, User: 0, Denom: "alias0", Amt: 200}, {Kind: "timeout", Chan: 0, Seq: 2},
-			{Kind: "timeoutraw", Chan: 0, Seq: 2}, {Kind: "ackraw", Chan: 0, Seq: 2, OK: false}, {Kind: "ackraw", Chan: 0, Seq: 1, OK: false}},
+	return append(e.corpusFiles(), [][]opT{
+		// success acknowledgement on the other channel, then a replayed failure acknowledgement
+		{{Kind: "sendevm", Chan: 1, User: 2, Denom: "alias1", Amt: 120}, {Kind: "ack", Chan: 1, Seq: 5, OK: true},
+			{Kind: "ack", Chan: 1, Seq: 5, OK: true}, {Kind: "ackraw", Chan: 1, Seq: 5, OK: false}, {Kind: "timeoutraw", Chan: 1, Seq: 5}},
 		// error ack, pair disabled at refund time, then enabled
 		{{Kind: "sendevm", Chan: 1, User: 1, Denom: "alias1", Amt: 70}, {Kind: "toggle", Denom: "alias1"}, {Kind: "ack", Chan: 1, Seq: 5, OK: false},
 			{Kind: "toggle", Denom: "alias1"}, {Kind: "ack", Chan: 1, Seq: 5, OK: false}, {Kind: "ack", Chan: 1, Seq: 5, OK: false}},
@@ -224,7 +251,7 @@ func (e *env) corpus() [][]opT {
 			{Kind: "sendevm", Chan: 0, User: 1, Denom: "fx", Amt: 20}, {Kind: "sendevm", Chan: 0, User: 1, Denom: "own10", Amt: 20},
 			{Kind: "timeout", Chan: 0, Seq: 1}, {Kind: "ack", Chan: 0, Seq: 2, OK: false}, {Kind: "timeout", Chan: 0, Seq: 3},
 			{Kind: "timeoutraw", Chan: 0, Seq: 1}, {Kind: "ackraw", Chan: 0, Seq: 3, OK: false}},
-	}
+	}...)
 }
 
 func (e *env) gen(avoidKnown bool) []opT {
